@@ -3,7 +3,7 @@
    Codec/FrameInspectProofs.v).  Each theorem is followed by Print Assumptions. *)
 From Coq Require Import ZArith List Bool.
 From ZV.Gen Require Gen_Tables.
-From ZV.Mem Require Import CompressBound CompressBoundProofs CompressCalls CompressCallsProofs.
+From ZV.Mem Require Import CompressBound CompressBoundProofs CompressCalls CompressCallsProofs CompressSplit CompressSplitProofs.
 From ZV.Codec Require Import FrameInspect FrameInspectProofs FrameInspectRobust.
 Import ListNotations.
 Local Open Scope Z_scope.
@@ -311,3 +311,85 @@ Theorem inplace_macro_margin : forall h bl ck bs B,
   inplace_decode [ZFrame h bl ck] B = Some (regen_blocks bl, B).
 Proof. exact inplace_macro_margin_sound. Qed.
 Print Assumptions inplace_macro_margin.
+
+(* ======================================================================================================================
+   Round 2: the post-splitter (ZSTD_deriveBlockSplits / ZSTD_compressBlock_splitBlock_internal) inside the model *)
+
+(* the partition table: for EVERY decision oracle (entropy estimates), every number of sequences and every recursion
+   depth the repaired helper leaves at most ZSTD_MAX_NB_BLOCK_SPLITS - 1 split locations, so the terminator that
+   ZSTD_deriveBlockSplits stores behind them stays inside partitions[ZSTD_MAX_NB_BLOCK_SPLITS] *)
+Theorem splitter_table_never_overrun : forall fuel decide nbSeq,
+  last_store_index (derive_splits true fuel decide nbSeq) <= MAX_NB_BLOCK_SPLITS - 1.
+Proof. exact derive_splits_table_bound. Qed.
+Print Assumptions splitter_table_never_overrun.
+
+(* ... and the split locations are strictly increasing inside (0, nbSeq): no partition without a sequence
+   (holds for the code before and after the repair) *)
+Theorem splitter_table_increasing : forall fixed fuel decide nbSeq,
+  increasing_in 0 nbSeq (derive_splits fixed fuel decide nbSeq).
+Proof. exact derive_splits_increasing. Qed.
+Print Assumptions splitter_table_increasing.
+
+(* closed witness of the finding C06-splitter-partition-table-overrun: the helper as it was, every split accepted,
+   43690 sequences: the last store goes to index 199 of a table of 196 entries *)
+Theorem splitter_table_overrun_before_repair :
+  last_store_index (derive_splits false 12 (fun _ _ => true) 43690) = 199 /\ 199 > MAX_NB_BLOCK_SPLITS - 1.
+Proof. split; [exact old_helper_overruns_the_table | reflexivity]. Qed.
+Print Assumptions splitter_table_overrun_before_repair.
+
+(* the block-level contract of the capped post-splitter: for ALL partition compressors obeying the raw-fallback contract
+   and ALL cuts of the block into partitions (positive sizes summing to the block), the split block is produced whenever
+   len + 3 * max(1, len >> 10) bytes are offered and never costs more than that, nor more than the capacity offered *)
+Theorem splitter_block_contract : forall pcs cut,
+  (forall i, bc_contract (pcs i)) -> (forall i len, 0 < len -> cut_ok (cut i len) len) ->
+  bc_contract_kb (bc_split pcs cut).
+Proof. exact split_block_contract. Qed.
+Print Assumptions splitter_block_contract.
+
+(* ZSTD_compressBound(n) bytes suffice under that WEAKER block contract (theorem 5 assumed cSize <= 3 + len per
+   frame-loop block, which the post-splitter does not guarantee) *)
+Theorem compressBound_suffices_weak_contract : forall fuel bc split n bsMax hs chk s0,
+  bc_contract_kb bc -> split_contract split ->
+  0 <= n < MAX_INPUT -> n <= Z.of_nat fuel ->
+  0 < bsMax <= BLOCKSIZE_MAX -> (BLOCKSIZE_MAX_MIN <= bsMax \/ n <= bsMax) ->
+  0 <= hs <= FHS_MAX -> s0 <= 0 ->
+  exists w capLeft,
+    compress_frame fuel bc split n bsMax hs chk s0 (bound n) = Done w capLeft /\
+    0 < w /\ w <= bound n /\ capLeft = bound n - w /\
+    w <= hs + n + BHS * kb_blocks n + (if n <=? 0 then BHS else 0) + (if chk then CHECKSUM_SIZE else 0).
+Proof. exact compressBound_suffices_kb_lemma. Qed.
+Print Assumptions compressBound_suffices_weak_contract.
+
+(* the frame writer with the post-splitter as part of the model: only the per-partition compressor and the cut are
+   oracles now *)
+Theorem compressBound_suffices_with_splitter : forall fuel pcs cut split n bsMax hs chk s0,
+  (forall i, bc_contract (pcs i)) -> (forall i len, 0 < len -> cut_ok (cut i len) len) -> split_contract split ->
+  0 <= n < MAX_INPUT -> n <= Z.of_nat fuel ->
+  0 < bsMax <= BLOCKSIZE_MAX -> (BLOCKSIZE_MAX_MIN <= bsMax \/ n <= bsMax) ->
+  0 <= hs <= FHS_MAX -> s0 <= 0 ->
+  exists w capLeft,
+    compress_frame fuel (bc_split pcs cut) split n bsMax hs chk s0 (bound n) = Done w capLeft /\
+    0 < w /\ w <= bound n /\ capLeft = bound n - w.
+Proof. exact compressBound_suffices_with_splitter_lemma. Qed.
+Print Assumptions compressBound_suffices_with_splitter.
+
+(* the one-partition contract of round 1 is an instance of the weak one *)
+Theorem strong_contract_implies_weak : forall bc, bc_contract bc -> bc_contract_kb bc.
+Proof. exact bc_contract_is_kb. Qed.
+Print Assumptions strong_contract_implies_weak.
+
+(* closed witness of the finding C06-splitter-exceeds-compressBound: without the cap, 64 blocks of 1 KiB each cut into
+   two raw partitions do not fit ZSTD_compressBound(64 KiB); with the cap the same frame takes 65734 bytes *)
+Theorem uncapped_splitter_refutes_the_bound :
+  let bc : block_compressor := fun _ cap len => split_block_uncapped pc_raw [len / 2; len - len / 2] cap in
+  compress_frame 100 bc (split_const KB128) 65536 1024 6 false 0 (bound 65536) = TooSmall /\
+  compress_frame 100 (bc_split (fun _ => pc_raw) (fun _ len => [len / 2; len - len / 2])) (split_const KB128) 65536 1024 6 false 0 (bound 65536)
+    = Done 65734 90.
+Proof. exact uncapped_splitter_overflows_the_bound. Qed.
+Print Assumptions uncapped_splitter_refutes_the_bound.
+
+(* the hypotheses of the two splitter theorems are satisfiable *)
+Theorem splitter_hypotheses_inhabited :
+  (forall i : nat, bc_contract ((fun _ => pc_raw) i)) /\ (forall (i : nat) len, 0 < len -> cut_ok ((fun _ l => [l]) i len) len).
+Proof. exact splitter_contracts_satisfiable. Qed.
+Print Assumptions splitter_hypotheses_inhabited.
